@@ -47,9 +47,12 @@ func (t Translator) FromArrai(v rel.Value) (interface{}, error) {
 				return false, nil
 			case rel.TrueSet:
 				return true, nil
-			default:
-				return b.(rel.GenericSet).IsTrue(), nil
+			case rel.GenericSet:
+				if b.Equal(rel.True) {
+					return true, nil
+				}
 			}
+			return nil, errors.Errorf("FromArrai: value in (b: <value>) must be true or false")
 		}
 		return nil, fmt.Errorf("cannot convert tuple %s to an object", v)
 	case rel.Array:
